@@ -295,7 +295,9 @@ fn mutate(rng: &mut Rng, mut f: Vec<u8>) -> Vec<u8> {
         5 => {
             // blow up an index
             if let Some(j) = (i..f.len()).find(|&j| f[j] == b'f') {
-                let big = *rng.pick(&[&b" 18446744073709551615"[..], b" 18446744073709551616", b" 4294967296", b" -1", b" 99"]);
+                let big = *rng.pick(&[&b" 18446744073709551615"[..], b" 18446744073709551616", b" 4294967296", b" -1", b" 99",
+                                      b" -9223372036854775808", b" -9223372036854775807", b" 9223372036854775807", b" 9223372036854775808",
+                                      b" 1/-9223372036854775808", b" 1//-9223372036854775808", b" -2147483648", b" -0"]);
                 for (k, b) in big.iter().enumerate() {
                     f.insert(j + 1 + k, *b);
                 }
@@ -334,7 +336,8 @@ pub fn gen(args: &Args, out: &mut dyn Write) {
         writeln!(out, "{}", json!({"k": format!("o{}-{}", args.seed, k), "via": via, "bytes": bytes})).unwrap();
         k += 1;
     };
-    let specials: [&[u8]; 18] = [
+    let specials: [&[u8]; 21] = [
+        b"v 0 0 0\nf -9223372036854775808 1 1", b"v 0 0 0\nvt 0 0\nf 1/-9223372036854775808 1/1 1/1", b"v 0 0 0\nvn 0 0 1\nf 1//1 1//-9223372036854775808 1//1",
         b"v 0 0 0\nv 1 0 0\nv 0 1 0\nf 1 2 3 4", b"v 1 2 3\nf 1 1 1 2", b"v 0 0 0\nv 1 0 0\nv 0 1 0\nv 1 1 0\nf 1 2 3 4 99\n",
         b"v 0 0 0\nv 1 0 0\nv 0 1 0\nv 1 1 0\nf 1 2 3 4",
         b"f 1 2 3", b"f 1 2 3\n", b"f 0 1 2\nv 0 0 0\nv 1 0 0", b"v 0 0 0\nf 0 0 0", b"f 1 1 1\nv 1 2 3",
